@@ -20,6 +20,12 @@ RULE = (
     "get_active_task()); all awaiters of one task receive the identical value / exception object; every call - also one issued from inside the running body, in a seeded spelling - is answered with the body's outcome for the requested function and arguments. "
     "Besides, 200 (thorough 3000) threads run strictly one after another, each leaving an unfinished task for the same key behind: a later thread (often with the same OS thread identifier) must get a task of its own. distinct = script hash; non-trivial = some call arrived while the first was in flight and blocked."
 )
+RULE += (
+    " Further configurations per key: the body calls dirty() for its OWN key before it blocks (whoever asks "
+    "afterwards gets a new execution); the body yields its item together with a task it created, which asks "
+    "for the same call - at once or after a flush - while the body is suspended and must be handed the "
+    "in-flight task."
+)
 ASSUMPTIONS = [
     "calls issued while the in-flight task's own step is on the Python stack are unconstrained by the statement and leave the model unchanged",
     "the process-wide task map is cleared between cases so id() reuse cannot confuse the model",
